@@ -80,6 +80,14 @@ func c03Plan(tier string) []PlanItem {
 					dd = 0
 				}
 				items = append(items, PlanItem{scnHBFault(kk.n, kk.k, i, kind), dd})
+				// the store refuses or swallows writes but still answers reads (the periodic
+				// token validation keeps succeeding in the middle of the failure streak)
+				if (kind == "err:timeout" || kind == "hang" || kind == "lost") && kk.n != "K3" {
+					w := scnHBFault(kk.n, kk.k, i, kind)
+					w.Name += "/writes-only"
+					w.Fault.WritesOnly = true
+					items = append(items, PlanItem{w, dd})
+				}
 				if (kind == "deleted" || kind == "expired") && kk.n != "K3" && i <= 2 {
 					items = append(items, PlanItem{scnHBFaultSlowDemote(kk.n, kk.k, i, kind), dd})
 				}
@@ -93,7 +101,7 @@ func init() {
 	oracles["C03"] = oracleC03
 	props["C03"] = &propDef{
 		Level:  "fault_enumeration",
-		Rule:   "fault position x fault kind x timing configuration: the fault begins at heartbeat attempt i in 1..5; kinds = immediate error (nats timeout / no responders / connection closed), hang until the library's time-out, write applied but acknowledgement lost, write applied and acknowledged 30 ms after the time-out with a hanging store afterwards, permanent partition, record replaced by another id, record deleted, record expired; configurations K1 (H=200ms,TTL=600ms), K2 (200ms,1s), K3 (4s,12s: time-out H/2); on top of each, every execution with <= D latency/placement deviations; non-trivial = the leader was demoted after the fault; distinct = distinct observation-trace hash",
+		Rule:   "fault position x fault kind x timing configuration: the fault begins at heartbeat attempt i in 1..5; kinds = immediate error (nats timeout / no responders / connection closed), hang until the library's time-out, write applied but acknowledgement lost, write applied and acknowledged 30 ms after the time-out with a hanging store afterwards, the error / hang / lost-acknowledgement kinds again with reads still answered (writes-only outage), permanent partition, record replaced by another id, record deleted, record expired; configurations K1 (H=200ms,TTL=600ms), K2 (200ms,1s), K3 (4s,12s: time-out H/2); on top of each, every execution with <= D latency/placement deviations; non-trivial = the leader was demoted after the fault; distinct = distinct observation-trace hash",
 		Assume: []string{"single leader, no competing instance (a competitor only adds earlier causes of demotion)", "reference store returns the real NATS error values"},
 		Plan:   c03Plan,
 	}
